@@ -4,7 +4,7 @@
    out of range or an explicit panic) nor Hang (fuel = one unit per loop
    iteration, len+1 given). *)
 From V Require Import Common.Base C16.Checked C16.Spec C16.Wtf8 C16.Vlq16 C16.CssNum C16.Pieces C16.Packet C16.CssIdent C16.JsxEntities
-  C16.Proofs C16.PanicSites C16.DecodeLoops.
+  C16.Proofs C16.Vlq16Proofs C16.PanicSites C16.DecodeLoops.
 From V Require Import gen.PanicSitesGen gen.DecodeLoopsGen.
 From Coq Require Import String.
 
@@ -51,6 +51,17 @@ Print Assumptions DecodeVLQUTF16_progress.
 Theorem decoder_total_sourcemap_mappings : total_on (fun _ => True) ParseMappings.
 Proof. exact total_ParseMappings. Qed.
 Print Assumptions decoder_total_sourcemap_mappings.
+
+(* the invariant that the printer (ChunkBuilder.appendMapping, SourceMap.Find) and the linker index with:
+   every mapping of a parsed source map has 0 <= source < len(Sources), name absent or
+   0 <= name < len(Names), and non-negative generated column / original line / original column -
+   for every list of sections whose raw "sources"/"names" array lengths are non-negative and sum to
+   less than 2^31 (JSON arrays; non-string entries COUNT, they become "") *)
+Theorem parsed_map_indices_in_range : forall secs ns nn ms,
+  sections_ok secs -> total_sources secs < 2 ^ 31 -> total_names secs < 2 ^ 31 ->
+  ParseMappings secs = Ok (PMap ns nn ms) -> Forall (good_mapping ns nn) ms.
+Proof. exact parsed_map_indices_in_range_all. Qed.
+Print Assumptions parsed_map_indices_in_range.
 
 (* css parseHex: every rune sequence; the value stays a uint32 *)
 Theorem decoder_total_parseHex : forall runes, exists v ok, parseHex runes = Ok (v, ok) /\ 0 <= v < 2 ^ 32.
